@@ -234,7 +234,7 @@ func (r *streamRun) setup() bool {
 
 func (sc streamCase) delay(i int) time.Duration {
 	switch {
-	case len(sc.DelaysMS) == 0:
+	case i < 0 || len(sc.DelaysMS) == 0:
 		return 0
 	case len(sc.DelaysMS) == 1:
 		return time.Duration(sc.DelaysMS[0]) * time.Millisecond
@@ -281,7 +281,7 @@ func streamSeg(r *streamRun) string {
 	var answers []peer.Frame
 	off := 0
 	for i, seg := range streamSegments(raw, sc.Cuts, sc.Singles) {
-		if d := sc.delay(i - 1); i > 0 && d > 0 {
+		if d := sc.delay(i - 1); d > 0 {
 			_, boundary := ends[off]
 			where := fmt.Sprintf("pause of %v at byte offset %d (%s)", d, off, map[bool]string{true: "between frames", false: "inside a frame"}[boundary])
 			if !boundary && d > streamT8 {
@@ -369,6 +369,7 @@ func streamLength(r *streamRun) string {
 	}
 	where := fmt.Sprintf("length field %d (%s, %s)", sc.Len, cls, sc.LenVar)
 	if cls != "legal" {
+		streamMaxAlloc = max(streamMaxAlloc, delta)
 		if delta >= streamAllocMB {
 			r.bad("stream:len:alloc:"+cls, "%s: %d bytes were allocated while the field was processed (bound 1 MiB)", where, delta)
 			return ""
@@ -423,6 +424,11 @@ func streamLength(r *streamRun) string {
 
 var streamOnLeak func(string)
 
+var (
+	streamFlaky    []string
+	streamMaxAlloc uint64 // largest TotalAlloc delta seen around an illegal length field
+)
+
 func streamExec(t *testing.T, sc streamCase) (outcome string, fail *streamFail, leak string) {
 	leak = e2.Run(t, func(w *e2.World) {
 		w.OnLeak = streamOnLeak
@@ -470,6 +476,21 @@ func streamCheck(c *vfw.Ctx, t *testing.T, sc streamCase) {
 	outcome, fail, leak := streamExec(t, sc)
 	c.Case(true)
 	c.Add("stream_executions:"+sc.Fam, 1)
+	if fail != nil && fail.key != "harness" && leak == "" {
+		// policy against false alarms (DESIGN.md 3.2): a violation must reproduce on every one of
+		// 4 more executions; a flicker is logged in the evidence, never reported as a VIOLATION.
+		for i := 0; i < 4; i++ {
+			_, again, _ := streamExec(t, sc)
+			c.Add("stream_executions:confirm", 1)
+			if again == nil || again.key != fail.key {
+				streamFlaky = append(streamFlaky, sc.String()+" -> "+fail.key)
+				c.Add("stream_flaky_cases", 1)
+				c.Set("stream_flaky_histories", streamFlaky[:min(len(streamFlaky), 10)])
+				c.Outcome("stream:flaky")
+				return
+			}
+		}
+	}
 	if leak != "" {
 		c.Violate("stream:goroutine-leak", "library goroutines alive after Close: "+leak[:min(len(leak), 600)], sc)
 	}
@@ -483,6 +504,9 @@ func streamCheck(c *vfw.Ctx, t *testing.T, sc streamCase) {
 		return
 	}
 	c.Outcome("stream:" + sc.Fam + ":" + outcome)
+	if sc.Fam == "len" {
+		c.Set("max_stream_len_alloc_delta_bytes", streamMaxAlloc)
+	}
 	if c.WantSample() && (sc.Fam != "seg" || len(sc.Cuts) == 2) {
 		c.Sample(map[string]any{"case": sc, "outcome": outcome})
 	}
@@ -730,7 +754,10 @@ func partStream(c *vfw.Ctx, t *testing.T) {
 		c.HarnessError("stream worker: %s", h)
 	}
 	for k, v := range p.Extra {
-		c.Set("stream_"+k, v)
+		if !strings.HasPrefix(k, "max_") && !strings.HasPrefix(k, "sum_") && !strings.HasPrefix(k, "stream_") {
+			k = "stream_" + k
+		}
+		c.Set(k, v)
 	}
 	if !p.Exhaustive {
 		c.Incomplete("stream worker stopped early (deadline or abort)")
